@@ -88,7 +88,7 @@ def load_known_findings():
 # kani
 # ------------------------------------------------------------------------------------------
 def limit_mem():
-    gb = int(os.environ.get("VERIF_MEM_GB", "12"))
+    gb = int(os.environ.get("VERIF_MEM_GB", "24"))
     resource.setrlimit(resource.RLIMIT_AS, (gb << 30, gb << 30))
 
 
@@ -210,7 +210,26 @@ def judge(h, r):
 PLAYBACK_RE = re.compile(r"```\s*\n(.*?)```", re.S)
 
 
+REPLAYS_DONE = 0
+
+
 def replay(pid, h):
+    """Replay with a cap on the number of native replays per run (each costs two native builds)."""
+    global REPLAYS_DONE
+    cap = int(os.environ.get("VERIF_MAX_REPLAYS", "3"))
+    if REPLAYS_DONE >= cap:
+        # not replayed: reported as an additional counterexample of a run that already has replayed ones
+        return None, None
+    REPLAYS_DONE += 1
+    ok, rp = replay_one(pid, h)
+    globals()["LAST_REPLAY_OK"] = ok or globals().get("LAST_REPLAY_OK", False)
+    return ok, rp
+
+
+LAST_REPLAY_OK = False
+
+
+def replay_one(pid, h):
     """Concrete playback of a failing harness: kani prints a unit test, which is run natively
     (dev and release) against /repo through `cargo kani playback`. Returns (reproduced, path)."""
     os.makedirs(os.path.join(REPLAY_DIR, pid), exist_ok=True)
@@ -309,23 +328,48 @@ def main():
     vccs = 0
     solver_s = 0.0
     symex_s = 0.0
+    unreplayed = 0
 
     # mirsym obligations (engine M), if the property has a spec there
     mir_rows = []
     mir_spec = os.path.join(ROOT, "mirsym", "specs", pid.lower() + ".py")
-    if os.path.exists(mir_spec) and not only:
-        sys.path.insert(0, os.path.join(ROOT, "mirsym"))
-        import driver  # noqa
-        mres = driver.run_property(pid, tier, seed)
-        mir_rows = mres["rows"]
-        for r in mir_rows:
-            if r["verdict"] == "violation":
-                violations.append((r["name"], r.get("replay")))
-            elif r["verdict"] == "finding":
-                known_printed.append((r.get("finding"), r["text"]))
-            elif r["verdict"] not in ("ok",):
-                log(f"BROKEN mirsym obligation {r['name']}: {r['verdict']} {r.get('detail','')}")
-                exit_code = max(exit_code, 3 if r["verdict"] != "unreproduced" else 2)
+    if os.path.exists(mir_spec) and (not only or only.startswith("mirsym")):
+        # engine M runs under the tooling venv (z3 bindings) as a subprocess and reports one JSON document
+        menv = dict(ENV)
+        if only and ":" in only:
+            menv["MIRSYM_ONLY"] = only.split(":", 1)[1]
+        mp = subprocess.run(["python3-vt", os.path.join(ROOT, "mirsym", "driver.py"), pid, tier, str(seed)],
+                            capture_output=True, text=True, env=menv)
+        mline = [l for l in mp.stdout.splitlines() if l.startswith("MIRSYM-JSON ")]
+        if not mline:
+            log("BROKEN: mirsym produced no result: " + (mp.stderr or mp.stdout)[-1500:])
+            exit_code = 3
+        else:
+            mres = json.loads(mline[-1][len("MIRSYM-JSON "):])
+            mir_rows = mres["rows"]
+            for r in mir_rows:
+                r["harness"] = "mirsym::" + r["name"]
+                if r["verdict"] == "violation":
+                    os.makedirs(os.path.join(REPLAY_DIR, pid), exist_ok=True)
+                    rp = os.path.join(REPLAY_DIR, pid, "mirsym__" + r["name"] + ".json")
+                    json.dump({"kind": "mirsym", "property": pid, "obligation": r["name"], "text": r["text"],
+                               "counterexample": r.get("counterexample")}, open(rp, "w"), indent=1)
+                    key = r.get("finding")
+                    if key and key in open_keys:
+                        known_printed.append((key, open_keys[key]["what"]))
+                    else:
+                        log(f"counterexample in mirsym::{r['name']}: {r.get('counterexample')}")
+                        violations.append((r["name"], rp))
+                elif r["verdict"] == "ok":
+                    pass
+                elif r["verdict"] == "unreproduced":
+                    log(f"UNREPRODUCED: mirsym::{r['name']}: {r.get('counterexample')}")
+                    exit_code = max(exit_code, 2)
+                else:
+                    log(f"BROKEN (inconclusive): mirsym::{r['name']}: {r.get('detail', r['verdict'])}")
+                    exit_code = max(exit_code, 3)
+        if only:
+            sel = []
 
     if sel:
         data, logp, wall = run_kani(pid, sel, jobs, tier)
@@ -365,7 +409,11 @@ def main():
                 else:
                     ok, rp = replay(pid, h)
                     row["replay"] = rp
-                    if ok:
+                    if ok is None:
+                        log(f"additional counterexample in {h['full']} (not replayed: replay cap reached)")
+                        row["verdict"] = "fail-not-replayed"
+                        unreplayed += 1
+                    elif ok:
                         violations.append((h["full"], rp))
                     else:
                         log(f"UNREPRODUCED: {h['full']} counterexample did not reproduce natively; see {rp}")
@@ -396,7 +444,7 @@ def main():
                     log(f"BROKEN (inconclusive): {h['full']}: {detail}")
                     exit_code = max(exit_code, 3)
             rows.append(row)
-    elif not mir_rows:
+    elif not mir_rows and exit_code == 0:
         log(f"BROKEN: no harnesses selected for {pid}")
         exit_code = 3
 
@@ -406,6 +454,8 @@ def main():
         log(f"VIOLATION property={pid} replay={rp}")
     if violations:
         exit_code = 1
+    elif unreplayed:
+        exit_code = max(exit_code, 2)
 
     wall = time.time() - t0
     proved = [r for r in rows if r["verdict"] == "ok"] + [r for r in mir_rows if r["verdict"] == "ok"]
